@@ -95,12 +95,48 @@ enum Unit {
     Numeric(String),
     Corrupt(Vec<u8>),
     Table(String),
+    /// character classes: context index, first character index
+    Chars(usize, usize),
     Deep { open: String, close: String, depth: usize, closed: bool, widths: Vec<usize> },
 }
 struct S {
     tier: Tier,
     units: Vec<Unit>,
 }
+
+/// Representatives of the Unicode classes the renderer's own character tests distinguish
+/// (is_numeric / is_ascii_digit, is_whitespace / is_ascii_whitespace, display width 0/1/2,
+/// control, format, supplementary plane, case mappings that change length).
+const CHARS: [char; 40] = [
+    'a', '7', '\u{b2}', '\u{ff11}', '\u{663}', '\u{bd}', '\u{2167}', '\u{a0}', '\u{3000}', '\u{2003}', '\u{2028}', '\u{85}', '\u{200b}', '\u{feff}', '\u{301}', '\u{336}', '\u{200d}', '\u{4e2d}',
+    '\u{1f600}', '\u{1}', '\u{7f}', '\u{9f}', '\u{ad}', '\u{202e}', '\u{fffd}', '\u{10ffff}', '\u{e000}', '\u{130}', '\u{df}', '\t', '\n', '\r', '\u{c}', ' ', '-', '\u{2010}', '\u{e01}', '\u{e31}', '\u{1100}',
+    '\u{fe0f}',
+];
+/// Contexts with one or two holes (`{}`), each a place where the renderer looks at characters.
+const CHAR_CONTEXTS: [&str; 22] = [
+    "<sup>{}</sup>",
+    "x<sup>{}</sup>y",
+    "<s>{}</s> <del>a{}</del>",
+    "<p>{}</p>",
+    "<pre>{}</pre>",
+    "<a href=\"{}\">{}</a>",
+    "<img src=\"s\" alt=\"{}\">",
+    "<ul><li>{}</li></ul>",
+    "<ol start=\"{}\"><li>{}</li></ol>",
+    "<table><tr><td>{}</td><td colspan=\"{}\">b</td></tr></table>",
+    "<h2>{}</h2>",
+    "<blockquote>{}</blockquote>",
+    "<code>{}</code>",
+    "<dl><dt>{}</dt><dd>{}</dd></dl>",
+    "<em>a</em>{}<strong>b</strong>",
+    "<p style=\"color:{}\">{}</p>",
+    "<style>{}</style><p class=\"{}\">x</p>",
+    "<div id=\"{}\">{}</div>",
+    "<p>{} {}</p>",
+    "<pre><em>{}</em>\n{}</pre>",
+    "<table><tr><td>a{}</td><td>{}b</td></tr></table>",
+    "<p>a<em>{}</em>b</p>",
+];
 
 const NESTABLE: [&str; 20] = ["div", "span", "em", "strong", "a", "ul", "ol", "blockquote", "table", "p", "h1", "pre", "dl", "li", "td", "code", "del", "sup", "font", "b"];
 const CYCLES: [(&str, &str); 6] = [("<ul><li>", "</li></ul>"), ("<ol><li>", "</li></ol>"), ("<table><tr><td>", "</td></tr></table>"), ("<dl><dd>", "</dd></dl>"), ("<blockquote><p>", "</p></blockquote>"), ("<a href=u><em>", "</em></a>")];
@@ -152,6 +188,25 @@ impl Scope for S {
                     }
                 }
             }
+            Unit::Chars(ctx, first) => {
+                let esc = |c: char| -> String {
+                    // keep attribute values and text well-formed: the markup alphabet is family A's business
+                    c.to_string()
+                };
+                let mut strings: Vec<String> = vec![esc(CHARS[*first]), format!("a{}", CHARS[*first]), format!("{}a", CHARS[*first])];
+                for d in CHARS {
+                    strings.push(format!("{}{}", CHARS[*first], d));
+                    strings.push(format!("a{}{}b", CHARS[*first], d));
+                }
+                for st in &strings {
+                    let doc = CHAR_CONTEXTS[*ctx].replace("{}", st);
+                    for w in [1usize, 2, 3, 5, 20] {
+                        check_one(doc.as_bytes(), w, &Cfg::plain(), false, cx);
+                        check_one(doc.as_bytes(), w, &Cfg::rich().with(Opt::Overflow).with(Opt::DocCss), false, cx);
+                        check_one(doc.as_bytes(), w, &Cfg::trivial().with(Opt::MinWrap(1)).with(Opt::Strike(false)), false, cx);
+                    }
+                }
+            }
             Unit::Corrupt(doc) => {
                 for w in [1usize, 4, usize::MAX] {
                     check_one(doc, w, &Cfg::plain(), false, cx);
@@ -187,8 +242,8 @@ impl Scope for S {
     fn info(&self) -> Info {
         let count = |f: &dyn Fn(&Unit) -> bool| self.units.iter().filter(|u| f(u)).count();
         Info {
-            rule: "A token soup: every sequence of <= 2 items over the 84-token markup alphabet (deviation <= 2 for single tokens, <= 1 for pairs) and of 3 (thorough: 4) items over the 26-token alphabet; B raw bytes: all strings of length <= 2 over all 256 byte values, 3 over 24, 4 over 12, <= 6 over 6; C numeric attributes: colspan/start from 18 extreme or malformed values on 5 table/list shapes; D every single-byte edit of the small documents and seeds; E deep nesting of 20 elements and 6 element cycles, closed and unclosed; F a slice of the regular-table universe at widths 1..9; x widths {0,1,2,3,5,8,9,17,40,200,1e5,usize::MAX} x {plain, plain_no_decorate, rich, trivial, custom ASCII} x deviation-bounded configurations; non-trivial = the input was rendered (Ok)".into(),
-            bounds: json!({"soup_units": count(&|u| matches!(u, Unit::Soup{..})), "byte_units": count(&|u| matches!(u, Unit::Bytes{..})), "numeric_documents": count(&|u| matches!(u, Unit::Numeric(_))), "corrupted_documents": count(&|u| matches!(u, Unit::Corrupt(_))), "deep_nesting_cases": count(&|u| matches!(u, Unit::Deep{..})),
+            rule: "A token soup: every sequence of <= 2 items over the 84-token markup alphabet (deviation <= 2 for single tokens, <= 1 for pairs) and of 3 (thorough: 4) items over the 26-token alphabet; B raw bytes: all strings of length <= 2 over all 256 byte values, 3 over 24, 4 over 12, <= 6 over 6; C numeric attributes: colspan/start from 18 extreme or malformed values on 5 table/list shapes; D every single-byte edit of the small documents and seeds; E deep nesting of 20 elements and 6 element cycles, closed and unclosed; F a slice of the regular-table universe at widths 1..9; G every string c, ac, ca, cd, acdb over 40 representatives of Unicode character classes (non-ASCII numerics and white space, width 0/1/2, controls, format characters, supplementary plane) in 22 text and attribute contexts (sup, s, pre, href, alt, li, ol start, colspan, style, class, id, ...); x widths {0,1,2,3,5,8,9,17,40,200,1e5,usize::MAX} x {plain, plain_no_decorate, rich, trivial, custom ASCII} x deviation-bounded configurations; non-trivial = the input was rendered (Ok)".into(),
+            bounds: json!({"soup_units": count(&|u| matches!(u, Unit::Soup{..})), "byte_units": count(&|u| matches!(u, Unit::Bytes{..})), "numeric_documents": count(&|u| matches!(u, Unit::Numeric(_))), "corrupted_documents": count(&|u| matches!(u, Unit::Corrupt(_))), "deep_nesting_cases": count(&|u| matches!(u, Unit::Deep{..})), "char_class_units": count(&|u| matches!(u, Unit::Chars(..))), "table_documents": count(&|u| matches!(u, Unit::Table(_))),
                 "widths": WIDTHS.iter().map(|w| w.to_string()).collect::<Vec<_>>(), "deep_nesting_depths": self.tier.pick(vec![1000, 10000], vec![1000, 10000, 100000]), "tier": self.tier.name()}),
             assumptions: vec!["'never hangs' is decided up to the watchdog (20 s per call; 60 s + 10 s x (depth/1e4)^2 for deep nesting)".into(), "stack safety is checked for the default 8 MiB main-thread stack of the worker processes".into(), "pad_block_width only with widths <= 1e5, as the property states".into()],
         }
@@ -284,6 +339,12 @@ impl Prop for P {
         // F: regular tables (colspans, empty columns) at the narrowest widths
         for t in table_slice(tier.pick(400, 4000)) {
             units.push(Unit::Table(t));
+        }
+        // G: character classes in every text / attribute context
+        for ctx in 0..CHAR_CONTEXTS.len() {
+            for first in 0..CHARS.len() {
+                units.push(Unit::Chars(ctx, first));
+            }
         }
         // D
         let g = G { tables: true, pre: true, valid_only: false };
